@@ -318,6 +318,72 @@ C02_PAIRS = [("int", "str"), ("str", "int"), ("int", "float"), ("bool", "str"),
 C02_PAIRS_QUICK = 8
 
 
+# ---------------------------------------------------------------------------
+# C02 targeted depth-2 slice (both tiers): homogeneous views whose element type
+# X is itself parameterised, against container values of 2-3 elements in every
+# order of (conforming, non-conforming-inner) elements.  The class of an element
+# (`list`, `dict`, `tuple`, `set`) is the same for the conforming and the
+# non-conforming one; only the instance's own parameters differ, so any
+# shortcut that judges an element by its class alone shows up here.
+
+# X -> (conforming, second conforming, non-conforming inner, second non-conforming, hashable)
+C02_NESTED_ELEMS = {
+    "List[int]": ("[1]", "[2]", "['s']", "[None]", False),
+    "Dict[str, int]": ("{'a': 1}", "{'b': 2}", "{'b': 's'}", "{1: 2}", False),
+    "Tuple[int, str]": ("(1, 's')", "(2, 't')", "('s', 1)", "(1, 2)", True),
+    "Set[str]": ("{'s'}", "{'t'}", "{1}", "{None}", False),
+    "Optional[List[int]]": ("[1]", "None", "['s']", "[1.5]", False),
+}
+# orders: c = conforming, d = second conforming, b = bad, e = second bad
+C02_NESTED_ORDERS = ["cb", "bc", "cd", "be", "cdb", "cbd", "bcd"]
+
+
+def _nested_value(outer, elems):
+  if outer == "tuple":
+    return "(" + ", ".join(elems) + ")"
+  if outer == "list":
+    return "[" + ", ".join(elems) + "]"
+  if outer == "set":
+    return "{" + ", ".join(elems) + "}"
+  if outer == "frozenset":
+    return "frozenset({" + ", ".join(elems) + "})"
+  keys = ["'k'", "'j'", "'i'"]
+  return "{" + ", ".join(f"{k}: {e}" for k, e in zip(keys, elems)) + "}"
+
+
+def c02_nested_slice():
+  """[(annotation, value)] of the targeted depth-2 slice."""
+  views = [  # (annotation form, outer containers whose values are posed against it)
+      ("Tuple[{}, ...]", ["tuple"]),
+      ("Sequence[{}]", ["tuple", "list"]),
+      ("Iterable[{}]", ["tuple", "list", "set", "frozenset"]),
+      ("Collection[{}]", ["tuple", "list"]),
+      ("List[{}]", ["list"]),
+      ("Set[{}]", ["set"]),
+      ("FrozenSet[{}]", ["frozenset"]),
+      ("Dict[str, {}]", ["dict"]),
+      ("Mapping[str, {}]", ["dict"]),
+  ]
+  out = []
+  for x, (c, d, b, e, hashable) in C02_NESTED_ELEMS.items():
+    pick = {"c": c, "d": d, "b": b, "e": e}
+    # the element pairs themselves, so that localisation finds them in the table
+    for el in (c, d, b, e):
+      out.append((x, el))
+    for form, outers in views:
+      for outer in outers:
+        if outer in ("set", "frozenset") and not hashable:
+          continue
+        for order in C02_NESTED_ORDERS:
+          out.append((form.format(x), _nested_value(outer, [pick[o] for o in order])))
+  seen, res = set(), []
+  for p in out:
+    if p not in seen:
+      seen.add(p)
+      res.append(p)
+  return res
+
+
 def c02_annotations(tier: str):
   """Depth-bounded annotation texts: quick = depth <= 1 over a leaf subset,
   thorough = depth <= 1 over all leaves plus depth 2."""
